@@ -228,6 +228,8 @@ pub fn run(ctx: &mut Ctx) {
     });
     ctx.require(&r, &["unequal", "equal"]);
     // hidden state: every ordered pair of operation calls on a fresh thread against the lone call (no model involved)
-    let hist_calls = crate::histpairs::calls_ops(!ctx.thorough(), &|op| matches!(op.sig().0, 0 | 2 | 5));
+    let hist_calls = crate::histpairs::calls_ops(true, &|op| matches!(op.sig().0, 0 | 2 | 5));
     crate::histpairs::pairwise(ctx, "C17", "date_bearing_operations", hist_calls);
+    let hist_calls_full = crate::histpairs::calls_ops(false, &|op| matches!(op.sig().0, 0 | 2 | 5));
+    crate::histpairs::pairwise_same_thread(ctx, "C17", "date_bearing_operations", hist_calls_full);
 }
